@@ -1,5 +1,5 @@
 /* C16, bounded: arrays ('a' values) of 0..2 elements, element types fixed per obligation, all nine length pairs and all
- * element payloads (symbolic) per obligation; array storage is an exact-size heap object (header + len elements).
+ * element payloads (symbolic) per obligation; array storage is an exact-size object (header + len elements).
  *   -DC16_LT / -DC16_RT : element type of the left / right array (char code). For 'T' and 'F' (boolean arrays) the
  *                         ELEMENTS are T or F independently ("T/F mixed"): the mix runs over all combinations in a
  *                         constant loop, so that every type the code switches on is concrete (a symbolic type makes
@@ -83,19 +83,28 @@ void h_array(void)
     /* lengths 0..2 x 0..2 and (boolean arrays) every T/F mix of the elements run in CONSTANT loops: with a symbolic
      * length the type of an element slot is symbolic (element or not), the code's switch(type) then reaches the
      * array case and with it the eq/cmp recursion (no result in 100 s); payloads stay symbolic */
+#ifdef C16_LN      /* obligation split only (boolean x boolean arrays): left length fixed per obligation */
+    for(int ln = C16_LN; ln <= C16_LN; ln++)
+#else
     for(int ln = 0; ln <= AMAX; ln++)
+#endif
     for(int rn = 0; rn <= AMAX; rn++)
     for(unsigned lmix = 0; lmix < (LBOOL ? (1u << ln) : 1u); lmix++)
     for(unsigned rmix = 0; rmix < (RBOOL ? (1u << rn) : 1u); rmix++) {
-        rtosc_arg_val_t *L = V_MALLOC((1 + (size_t)ln) * sizeof(rtosc_arg_val_t));
-        rtosc_arg_val_t *R = V_MALLOC((1 + (size_t)rn) * sizeof(rtosc_arg_val_t));
+        /* exact-size objects (ln, rn are constants here; a malloc'ed byte object would lose the constant types) */
+        rtosc_arg_val_t L[1 + ln], R[1 + rn];
         struct cs_val sl, sr, sle[AMAX], sre[AMAX];
-        c16_mk_arrhdr(C16_LT, ln, &IN.lj[AMAX], &L[0]);
-        c16_mk_arrhdr(C16_RT, rn, &IN.rj[AMAX], &R[0]);
-        for(int k = 0; k < ln; k++)
-            mk_elem(C16_LT, lmix, k, IN.lb[k], IN.lsc[k], IN.lsl[k], &IN.lj[k], &L[1 + k], &sle[k]);
-        for(int k = 0; k < rn; k++)
-            mk_elem(C16_RT, rmix, k, IN.rb[k], IN.rsc[k], IN.rsl[k], &IN.rj[k], &R[1 + k], &sre[k]);
+        /* every value is built in a temporary and then assigned as a struct: a memcpy (union junk) straight into
+         * the array would turn the whole array into a byte-update term and lose the constant type fields */
+        rtosc_arg_val_t tmp;
+        c16_mk_arrhdr(C16_LT, ln, &IN.lj[AMAX], &tmp); L[0] = tmp;
+        c16_mk_arrhdr(C16_RT, rn, &IN.rj[AMAX], &tmp); R[0] = tmp;
+        for(int k = 0; k < ln; k++) {
+            mk_elem(C16_LT, lmix, k, IN.lb[k], IN.lsc[k], IN.lsl[k], &IN.lj[k], &tmp, &sle[k]); L[1 + k] = tmp;
+        }
+        for(int k = 0; k < rn; k++) {
+            mk_elem(C16_RT, rmix, k, IN.rb[k], IN.rsc[k], IN.rsl[k], &IN.rj[k], &tmp, &sre[k]); R[1 + k] = tmp;
+        }
         c16_cs_clear(&sl, 'a'); sl.atype = C16_LT; sl.alen = ln; sl.elems = sle;
         c16_cs_clear(&sr, 'a'); sr.atype = C16_RT; sr.alen = rn; sr.elems = sre;
         check_pair(L, R, ln, rn, &sl, &sr);
